@@ -124,7 +124,7 @@ def op_misc(p):
                            st.booleans() if p["streaming"] else st.just(False)))]
     if p["reg_events"]:
         opts.append((1, st.tuples(st.just("reg"), st.sampled_from(["new", "here", "here"]), st.integers(0, 10 ** 6))))
-    if p["rebase"]:
+    if p["rebase"] or p.get("rebase_w"):
         opts.append((1, st.tuples(st.just("rebase"), st.integers(0, 20), st.integers(0, 20), st.sampled_from([None, 0, 1]))))
     opts.append((1, st.tuples(st.just("feed"), st.sampled_from([600, 1200, 2400]))))
     return weighted(opts)
